@@ -428,6 +428,26 @@ func c11Raw() []c11Fail {
 			}
 		}
 	}
+	// a datagram damaged on the way (one payload bit flipped, checksum field as sent and not
+	// zero) is not "a datagram that was sent to it": it must not be returned
+	for _, n := range []int{1, 8, 1472} {
+		for bit := 0; bit < 2; bit++ {
+			data := c11Data(byte(3*n), n)
+			u := ref.BuildUDP(7778, c11RecvPort, data, r.pAddr, r.sAddr)
+			if u[6] == 0 && u[7] == 0 {
+				continue // "no checksum" datagrams cannot be verified
+			}
+			pos := 8
+			if bit == 1 {
+				pos = len(u) - 1
+			}
+			u[pos] ^= 0x10
+			r.InjectIP(ref.ProtoUDP, u)
+			if v, _, err := rcv.Read(nil); err == nil {
+				fails = append(fails, c11Fail{"corrupted-datagram-delivered", fmt.Sprintf("datagram of %d bytes with payload byte %d damaged in transit (UDP checksum %02x%02x no longer matches): Read returned it (%d bytes)", n, pos-8, u[6], u[7], len(v))})
+			}
+		}
+	}
 	return fails
 }
 
